@@ -1021,6 +1021,13 @@ class Variable(CanBehaveLikeAVariable[T]):
                     if yield_when_false or not self._is_false_:
                         yield v
 
+    @property
+    def _falsy_value_is_false_(self) -> bool:
+        # the output of a predicate decides the truth of its row (a falsy output is a false row). Where the output is used
+        # as a value (an operand, a selected output, a constructor argument) the false rows are asked for as well, like
+        # those of an attribute or a flattened element: double(x.n) == 0 compares the 0.
+        return self._predicate_type_ is not None
+
     def _evaluate_kwargs_expression_(self, sources: Optional[Dict[int, HashedValue]] = None, yield_when_false: bool = False):
         self._evaluating_kwargs_expression_ = True
         try:
